@@ -66,7 +66,7 @@ CHECKS = {
    text=("Proved in Lean (Mathlib ZMod/Module, axioms propext/Classical.choice/Quot.sound): over any ZMod n-module with n prime, a signature made "
          "with a non-zero nonce verifies under d•G (verify_sign); the (r, -s) twin of a valid signature is valid when negation preserves the "
          "x-coordinate, so low-S normalisation preserves validity; lowS yields a value in (0, n/2] equal to s or n-s; the pre-fix float threshold gives "
-         "a low S iff the raw s is not in (n/2, 2^255] (F10, found by this check and fixed). The Lean driver re-implements the signer exactly (RFC6979 "
+         "a low S iff the raw s is not in (n/2, 2^255] (F10, found by this check and fixed); strict DER: derDecode(derEncode(r, s)) = (r, s) for all 1 <= r, s < 2^256 (minimal lengths, no negative or zero-padded integers). The Lean driver re-implements the signer exactly (RFC6979 "
          "nonce as fastecdsa derives it from sha256 of the ASCII-hex digest, low-S, strict DER): for every generated (key, digest[, nonce]) - incl. "
          "digests crafted so that s hits n/2, n/2+1, 2^255-1, 2^255, 2^255+1, n-1 - r, s, DER bytes and nonce must be identical; every signature is "
          "verified by the independent Lean secp256k1 verifier and re-decoded by a strict BIP66 decoder; library-derived nonces are pairwise distinct; "
@@ -163,7 +163,7 @@ CHECKS = {
    design_ref='DESIGN.md §5 C14',
    note=COMMON_NOTE + "Unicode NFKD is Python's unicodedata on both sides. The default check_on_curve=True guard (entropy must be in (0, n)) is a documented parameter: verified to be exactly that guard and counted."),
  'C20': dict(
-   technique='Lean 4 theorems about the provider loop (returned value is a provider answer; no answer => no value; failover past failing providers), any number of providers + exhaustive outcome-assignment correspondence with real Service objects and fake providers',
+   technique='Lean 4 theorems about the provider loop (returned value is a provider answer; no answer => no value; failover past failing providers) and about the cache in front of it (never-fabricated over whole query histories), any number of providers + exhaustive outcome-assignment correspondence with real Service objects and fake providers',
    text=("Proved in Lean for the transcription of Service._provider_execute, for ANY number of providers, outcome assignment, max_providers and "
          "max_errors: a returned value is exactly the answer of one of the providers (never fabricated); if no provider answers no value is returned; "
          "with max_providers = 1, skipped / empty / raising providers are passed over and the first answering provider's answer is returned as long as "
@@ -172,7 +172,7 @@ CHECKS = {
          "providers, priority orders, max_providers in {1,2}, max_errors in {1,2,4}: returned value, results and errors bookkeeping must match. Every "
          "query method (sendrawtransaction, getrawtransaction, getbalance, getutxos, gettransaction, mempool, isspent, estimatefee) is run on all "
          "{ok, False, exception}^2 patterns cold and warm: the answer must be the first responding provider's, a failure, or - warm - exactly what "
-         "was stored. Listed finding: F36 (getbalance reports 0 when no provider answered; the repair breaks an unedited offline test)."),
+         "was stored. Additionally proved: a cache read returns what was stored for that key, and along ANY history of cached queries (cold / warm / partially filled cache, any failures) every value returned for a key was answered by some provider for that key in this or an earlier query; random histories of Service.gettransaction over several txids are compared with this cache + provider machine. Listed finding: F36 (getbalance reports 0 when no provider answered; the repair breaks an unedited offline test)."),
    design_ref='DESIGN.md §5 C20',
    note=COMMON_NOTE + "Providers are in-process fakes (timeouts and partial HTTP answers are represented by the outcome classes); the SQL cache is exercised, not modelled; estimatefee's clamping/default is a documented normalisation; blockcount's provider-consensus vote is outside the model."),
  'C17': dict(
@@ -237,15 +237,15 @@ CHECKS = {
          "limits; with automatic inputs every input is one of the candidate rows (unspent, required confirmations), none twice, and they cover "
          "amount + fee estimate; if the candidates cannot pay amount + fee estimate, or explicit inputs cannot pay the outputs (or outputs + "
          "explicit fee), the request fails; a single change output is positive; a sweep pays out exactly the swept inputs; a fee bump leaves "
-         "recipient outputs untouched and takes at least the extra fee from change. The transcription uses the exact binary64 model for the "
+         "recipient outputs untouched and takes at least the extra fee from change; when WalletTransaction.bumpfee has to add a wallet input it is one the transaction does not spend yet (inputs stay distinct) and the transaction still balances. The transcription uses the exact binary64 model for the "
          "float expressions. It is compared call by call with the real code on HD legacy/segwit/p2sh-segwit, single-key and 2-of-3 multisig "
          "wallets: every estimate_size call, every select_inputs call (candidate rows read with the same query), every transaction_create "
-         "(fee, fee_per_kb, inputs, change amounts or the error kind; random.randint and numpy dirichlet draws recorded), sweep and "
-         "Transaction.bumpfee. Every created transaction is additionally checked against the sentences of C07 on the objects and on the raw "
+         "(fee, fee_per_kb, inputs, change amounts or the error kind; random.randint and numpy dirichlet draws recorded), sweep, "
+         "Transaction.bumpfee and WalletTransaction.bumpfee (incl. the extra-input fallback). Every created transaction is additionally checked against the sentences of C07 on the objects and on the raw "
          "bytes parsed by the Lean parser (recipients once with exact script, other outputs to change keys, inputs distinct/unspent/confirmed, "
          "signs and verifies). Found and fixed: F39, F41, F42; listed: F40 (invalid explicit input lists are accepted)."),
    design_ref='DESIGN.md §5 C07',
-   note=COMMON_NOTE + "Rows with equal (confirmations, value) may come back from SQLite in either order; selections differing only in such ties count as equal. WalletTransaction.bumpfee's fallback (adding an input) and send()'s fee re-estimation are exercised through C08 histories, not modelled."),
+   note=COMMON_NOTE + "Rows with equal (confirmations, value) may come back from SQLite in either order; selections differing only in such ties count as equal. send()'s fee re-estimation is exercised through C08 histories, not modelled."),
  'C09': dict(
    technique='Lean 4: key-structure table (generated from config.py) pinned against BIP44/45/48/49/84 by decide, symbolic path theorems for every variable value, injectivity, and an invariant proof over all histories of a key-row machine (no repeated index; no gaps for new_key/get_key histories) + history correspondence with real wallets, every key re-derived with the Lean BIP32/address functions, wallets re-created from seed / mnemonic / xprv / account xpub',
    text=("Proved in Lean: the generated WALLET_KEY_STRUCTURES table has exactly one structure per (witness type, multisig) with purpose 44/49/84 "
